@@ -58,7 +58,8 @@ def run_batch(ctx, ntasks, store, fine, faults, real_joblib=False):
     extlock = (6, 0) if faults == "extlock" else None
     unregistered = faults == "unregistered"      # the batch is handed to evaluate() without being recorded in problem.individuals
     mixedcls = faults == "mixedcls"              # designs carried by the different individual classes of the framework
-    if constrained or extlock or unregistered or mixedcls:
+    procs = int(faults[5:]) if isinstance(faults, str) and faults.startswith("procs") else 2     # max_processes for this execution
+    if constrained or extlock or unregistered or mixedcls or procs != 2:
         faults = False
     key = ("p", constrained)
     env = Env.cache.get(key)
@@ -97,6 +98,7 @@ def run_batch(ctx, ntasks, store, fine, faults, real_joblib=False):
         env["alg"].options['max_processes'] = 2
         Env.cache[key] = env
     problem, alg = env["problem"], env["alg"]
+    alg.options['max_processes'] = procs
     env["ctx"] = ctx
     env["faults"] = faults
     env["calls"] = []
@@ -157,7 +159,7 @@ def judge(problem, batch, exc, rows, info, store, faults, desc):
     from artap.individual import Individual
     out = []
     constrained = faults == "constrained"
-    if constrained or faults in ("extlock", "unregistered", "mixedcls"):
+    if constrained or faults in ("extlock", "unregistered", "mixedcls") or (isinstance(faults, str) and faults.startswith("procs")):
         faults = False
 
     def bad(key, msg):
@@ -322,7 +324,9 @@ def run(tier, seed):
                   ("explore", 33, True, False, False, 0), ("explore", 65, False, False, False, 0), ("explore", 129, True, False, False, 0),
                   ("free", 33, True, 5), ("free", 65, False, 5), ("free", 257, True, 2), ("free", 1025, False, 1),
                   ("explore", 2, True, False, "unregistered", 3), ("explore", 33, True, False, "unregistered", 0), ("explore", 129, True, False, "unregistered", 0),
-                  ("explore", 3, True, False, "mixedcls", 2), ("explore", 9, True, False, "mixedcls", 1)]
+                  ("explore", 3, True, False, "mixedcls", 2), ("explore", 9, True, False, "mixedcls", 1),
+                  ("explore", 3, True, False, "procs3", 2), ("explore", 4, False, False, "procs3", 2), ("explore", 2, True, False, "procs8", 2),
+                  ("explore", 5, False, False, "procs4", 2), ("explore", 9, True, False, "procs16", 1)]
     else:
         shards = [("explore", 2, False, False, False, None), ("explore", 2, True, False, False, 3),
                   ("explore", 3, False, False, False, 3), ("explore", 3, True, False, False, 2),
@@ -336,7 +340,10 @@ def run(tier, seed):
                   ("explore", 33, True, False, False, 0), ("explore", 65, False, False, False, 0), ("explore", 129, False, False, False, 0),
                   ("free", 33, True, 3), ("free", 65, False, 3), ("free", 257, False, 1),
                   ("explore", 2, True, False, "unregistered", 1), ("explore", 33, True, False, "unregistered", 0), ("explore", 65, True, False, "unregistered", 0),
-                  ("explore", 3, True, False, "mixedcls", 1), ("explore", 9, True, False, "mixedcls", 0)]
+                  ("explore", 3, True, False, "mixedcls", 1), ("explore", 9, True, False, "mixedcls", 0),
+                  # other worker counts: three workers, more workers than designs
+                  ("explore", 3, True, False, "procs3", 1), ("explore", 4, False, False, "procs3", 1), ("explore", 2, True, False, "procs8", 1),
+                  ("explore", 5, False, False, "procs4", 1), ("explore", 9, True, False, "procs16", 0)]
     split = []
     for sh in shards:
         if sh[0] == "explore":
